@@ -1032,6 +1032,11 @@ class PolyhedralTermList(TermList):  # noqa: WPS338
             assert m_h == m
         if n == 0:
             return a, b
+        if m == 0 and n > 1:
+            # no variable at all: every row reads 0 <= b, which is either unsatisfiable or says nothing
+            if np.any(np.asarray(b) < 0):
+                raise ValueError("The constraints are unsatisfiable")
+            return a[:0], b[:0]
         if n == 1 and not helper_present:
             return a, b
 
